@@ -20,7 +20,7 @@ def record():
     rec = x02.Recorder(R, net)
     q = {'s': 1, 't': [4], 'c': 0, 'units': 'eV', 'T': 300.0}
     events.append(x02.do_minspan(R, net, rec, q)[0])                       # 1
-    events.append(x02.do_minspan(R, net, rec, dict(q, c=4))[0])            # 2
+    events.append(x02.do_minspan(R, net, rec, dict(q, t=[3], c=4))[0])     # 2
     events.append(x02.do_diagram(R, net, rec, q)[0])                       # 3
     events.append(x02.do_diagram(R, net, rec, dict(q, maxp=1))[0])         # 4
     events.append(x02.do_span(R, net, rec, [1, 6, 3, 4], 'eV', 300.0))     # 5
